@@ -9,6 +9,9 @@ CHECKS = {
  "C03": dict(level="model_checking", technique="explicit-state BFS over derivation pipelines on the real evaluator; in every state all selections deleted by the real del vs reference deletion-by-identity on the state's value",
    text="Breadth-first search over pipelines of derivation operators (sort, reverse, slices, map, filter, collect, +, pick, omit, with_entries, assignments of derived values, earlier deletes) replayed on the real evaluator; states are de-duplicated by the canonical node-graph dump; in every container state each of 18 selections (single paths, +/- indices, unions in both orders, duplicates, splat and recursive descent with predicates, two-digit indices) is deleted by the real del and compared with deletion by node identity, in the reference machine, of the state's value decoded afresh.",
    note="Trusted: refsem for selection evaluation and deletion; derivation operators are only used to reach states, they are judged by C01/C15/C16.", design="4/C03"),
+ "C04": dict(level="model_checking", technique="bounded-exhaustive conformance exploration: all ordered pairs/triples of nested maps x all 16 flag subsets, real merge vs reference merge, plus node-graph immutability dump",
+   text="All ordered pairs of nested maps up to the node bound and all 16 subsets of the merge flags are merged by the real evaluator as `[(.x * .y), .x, .y]` and compared with the reference merge and with the operands' values before; the document's node graph is dumped before and after `.x * .y`; the identities a*{} = a, {}*a = a, a*a = a are checked without a reference; the multi-document `ireduce ({}; . * $i)` form is run on documents evaluated together for all pairs and triples and compared with the left fold of the reference.",
+   note="Trusted: refsem Merge; the region the property leaves open (kind conflicts combined with + ? n; + with d) is Undef and counted.", design="4/C04"),
  "C08": dict(level="model_checking", technique="bounded-exhaustive differential exploration: every vocabulary atom in every operand position x styled documents, full node-graph dump before/after on the real evaluator",
    text="Every atom of the assignment-free vocabulary is placed alone, in every operand position of the listed unary forms and on both sides of every binary operator, wrapped as `(e) as $x | .` and `.. | select(e)`, and run by the real evaluator on every styled and commented document of the bound; the complete canonical dump of the input's node graph (all fields, pointer structure) must be identical before and after, the yielded nodes must be the original ones and the document must print as before. No reference model is involved, so there is no model/code gap.",
    note="Trusted: the graph dump covers every exported field of CandidateNode; operators that are in-place by design or read the environment are excluded as the statement excludes them.", design="4/C08"),
